@@ -32,12 +32,13 @@ func c11Run(sc c11Scenario, serial map[string]string, prefix []int, sigs []strin
 		for i := range in.conns {
 			in.inject2(i, (&sReq{Kind: kAssoc, Conn: i, Seq: 1}).build(in.conns[i]).marshal())
 		}
+		ups := c11Prologue(in, sc, in.inject2)
 		s.Explore = true
 		left := len(sc.Streams)
 		for a := range sc.Streams {
 			a := a
 			vsched.Go("harness.assoc", func() {
-				c11Stream(in, sc, a, &res)
+				c11Stream(in, sc, a, &res, ups)
 				left--
 			})
 		}
@@ -122,10 +123,10 @@ func TestVerifC11(t *testing.T) {
 	vQuietLoggers()
 	res := vNewResult()
 	defer res.write(t)
-	bound := 2
+	bound := 1
 	maxExec := int64(400000)
 	if vEnv.Thorough {
-		bound, maxExec = 3, 4000000
+		bound, maxExec = 2, 4000000
 	}
 	res.Rule = fmt.Sprintf("2 (one scenario: 3) associations, each a thread with a stream of 2-3 requests (establish with CHOOSE F-TEID, UE-IP allocation from a /29, shared gNB and shared application filter; "+
 		"Update FAR to another gNB; delete) through the real HandlePFCPMsg on one shared plug-in (UP4 on the fake switch, BESS on the fake BESS); scheduling points at every lock, session-store and pool operation "+
@@ -156,7 +157,7 @@ func TestVerifC11(t *testing.T) {
 		sc := sc
 		serial := c11Serial(sc)
 		res.Extra["serial_outcomes_"+sc.Name] = len(serial)
-		st := schedExplore(res, "c11", sc, sc.Name, bound, maxExec, func(p []int, sg []string) (*vsched.Sched, schedVerdict) { return c11Run(sc, serial, p, sg) })
+		st := schedExplore(res, "c11", sc, sc.Name, bound+sc.Extra, maxExec, func(p []int, sg []string) (*vsched.Sched, schedVerdict) { return c11Run(sc, serial, p, sg) })
 		res.Distinct += st.Executions
 		res.addExtra("sum_choice_points", st.Points)
 		if st.Truncated {
